@@ -129,11 +129,17 @@ def rand_rewrite(rng, name, vendors=(311, 9, 27262), grow=False):
         for _ in range(rng.randrange(1, 3)):
             if rng.random() < 0.4:
                 ve, t, v = rng.choice(vendors), rng.choice([1, 2, rng.randrange(1, 256)]), R.rand_bytes(rng, rng.choice([0, 1, 4, 10]))
+                if len(v) >= 4 and v[0] < 128:
+                    v = v[:1] + [b"%41", b"%2e", b"%%4", b"%00"][v[1] % 4] + v[4:]
                 rw.supsrc.append("    supplementVendorAttribute %d:%d:%s" % (ve, t, pct(v)))
                 rw.sup.append((26, ve.to_bytes(4, "big") + bytes([t, len(v) + 2]) + v))
                 rw._vsup.append(rw.sup[-1])
             else:
                 t, v = rng.choice([18, 25, 31, rng.randrange(1, 256)]), R.rand_bytes(rng, rng.choice([0, 1, 4, 10]))
+                if len(v) >= 4 and v[0] < 128:
+                    # a value that still LOOKS like an escape after the configuration's own escaping has been taken off ('%' + two
+                    # hex digits, "%%"): it is to be supplemented as it stands (chosen by an octet already drawn)
+                    v = v[:1] + [b"%41", b"%2e", b"%%4", b"%00"][v[1] % 4] + v[4:]
                 rw.supsrc.append("    supplementAttribute %d:%s" % (t, pct(v)))
                 rw.sup.append((t, v))
     # addrewrite() builds the lists from the plain option first, then the vendor option
@@ -176,6 +182,29 @@ class Cfg:
             G.append("LoopPrevention on")
         if not self.opts["verifyeap"]:
             G.append("VerifyEAP off")
+        # how the Calling-Station-Id is to be shown in logs and F-Ticks (C18): written in any letter case; the keyed modes need their key
+        h = int(hashlib.sha1(repr(([c["name"] for c in self.clients], [x["name"] for x in self.servers], self.opts["addttl"])).encode()).hexdigest(), 16)
+        MODES = ["Static", "Original", "VendorHashed", "VendorKeyHashed", "FullyHashed", "FullyKeyHashed"]
+        var = lambda s, k: [s, s.lower(), s.upper(), s.swapcase()][k % 4]
+        self.macopts = ["-", "-", "-"]
+        if h % 3:
+            m = MODES[(h >> 4) % 6]
+            self.macopts[0] = m
+            G.append("LogMAC " + var(m, h >> 8))
+            if "Key" in m or (h >> 10) % 4 == 0:
+                G.append("LogKey k%d" % (h % 1000))
+        if (h >> 12) % 3:
+            m = MODES[(h >> 16) % 6]
+            self.macopts[1] = m
+            G.append("FTicksMAC " + var(m, h >> 20))
+            if "Key" in m:      # (an FTicksKey that the mode does not use ends the proxy at start-up: "config warning" through debugx(1, ..))
+                G.append("FTicksKey f%d" % (h % 977))
+        if (h >> 24) % 3 and (self.macopts[1] not in ("-", ) and ("Key" not in self.macopts[1] or True)):
+            r = ["None", "Basic", "Full"][(h >> 26) % 3]
+            # (the default FTicksMAC is VendorKeyHashed: reporting other than None then needs a key)
+            if r == "None" or self.macopts[1] != "-":
+                self.macopts[2] = r
+                G.append("FTicksReporting " + var(r, h >> 28))
         # the global options may stand anywhere outside the blocks (radsecproxy.conf(5)): before them, after them, or some of
         # each. Where they go is a function of the configuration itself, so no random draw is consumed.
         place = int(hashlib.sha1(repr((G, [c["name"] for c in self.clients], [x["secret"] for x in self.servers])).encode()).hexdigest(), 16) % 4
@@ -245,7 +274,9 @@ class Cfg:
 
     def tokens(self):
         o = self.opts
-        T = ["O;addttl=%d;ttl=%d,%d;loopprev=%d;verifyeap=%d" % (o["addttl"], o["ttl"][0], o["ttl"][1], o["loopprev"], o["verifyeap"])]
+        self.text()     # (fixes self.macopts)
+        T = ["O;addttl=%d;ttl=%d,%d;loopprev=%d;verifyeap=%d;logmac=%s;fticksmac=%s;fticksrep=%s" %
+             (o["addttl"], o["ttl"][0], o["ttl"][1], o["loopprev"], o["verifyeap"], self.macopts[0], self.macopts[1], self.macopts[2])]
         T += [rw.token() for rw in self.rewrites]
         for c in self.clients:
             ru = "." if not c["rwuser"] else "%s:%s" % (hexs(c["rwuser"][0]), hexs(c["rwuser"][1]))
